@@ -299,6 +299,17 @@ class Source:
         self._owned = set() if dynamic else good - bad
         return self._owned
 
+    def method_names(self):
+        """names of the methods defined by the classes of the translated files (JavaScript classes that do not parse are skipped)"""
+        if getattr(self, '_methods', None) is None:
+            for name in [n for n, it in self.js_items.items() if it[0] == 'class']:
+                try:
+                    self._parse_js(name)
+                except TranslateError:
+                    pass
+            self._methods = {m.name for c, _f in self.classes.values() for m in c.body if isinstance(m, (ast.FunctionDef, ast.AsyncFunctionDef))}
+        return self._methods
+
     def function(self, name):
         if name in self.js_items and self.js_items[name][0] == 'function':
             self._parse_js(name)
@@ -844,6 +855,526 @@ def compute_depth(body, lv, init):
     return env
 
 
+# ---------------------------------------------------------------------------------------------------- shapes (element trust)
+#
+# SHAPE of a value (a LOWER bound: what is KNOWN about it at every binding site / store site; see THE RULES, "element trust"):
+#   A                 an untrusted value: an atom, a cell, anything that came through an untracked name or unknown code.  Used in a
+#                     list position it is a CELL (RCell, never clean); as a container its elements are untrusted.
+#   ('S', pre, suf)   a TRACKED list object: any number of elements of shape pre, then len(suf) fixed last positions.
+#                     pre = TOP: no other elements (an exact tuple / display).  S(A, ()) is a flat row.
+#   ('M', k, v)       a TRACKED map object (dict / Map): keys of shape k, values of shape v.
+#   TOP               nothing known yet / an empty container: the identity of meet.
+# An element position is TRUSTED (read as RElem: an owned object that was SStore'd when it was put there) only when its shape is
+# S or M, i.e. when at EVERY store site that position syntactically holds a tracked list object; otherwise it is read as RCell.
+A, TOP = 'A', 'TOP'
+FLAGS = []                  # reasons of the never-safe statements emitted by Tr.flag (reported in HeapFacts.json and on stderr)
+LANG = ['py']               # language being translated (iteration of a map yields keys in Python, [key, value] in JavaScript)
+ATTR_SHAPES = {}            # attribute name -> shape of what the writer classes keep there (all store sites, see attr_shapes)
+EMPTY_CTORS = {'list', 'dict', 'set', 'tuple', 'frozenset', 'OrderedDict', 'defaultdict', 'deque', 'Map', 'Set', 'Array', 'Object', 'WeakMap'}
+PAIR_WRAPPERS = {'enumerate'}
+SIZE_MUTATORS = {'append', 'push', 'add', 'appendleft', 'unshift', 'insert', 'extend', 'update', 'pop', 'shift', 'remove', 'clear', 'splice',
+                 'popleft', 'popitem', 'discard', 'delete', 'sort', 'reverse', 'fill', 'copyWithin'}
+
+
+def S(pre, suf=()):
+    return ('S', pre, tuple(suf))
+
+
+FLAT = S(A)
+ENTRY = S(A, (A, FLAT))     # the JavaScript sort entry  sort_key.concat([NR, out_fields]):  key values .., a number, the row
+SRC3 = S(S(FLAT))           # get_rhs(..): a list of tuples whose components are rows (all of them source objects anyway)
+
+
+def tracked(s):
+    return isinstance(s, tuple)
+
+
+def meet(s, t):
+    if s == TOP:
+        return t
+    if t == TOP:
+        return s
+    if s == A or t == A or s[0] != t[0]:
+        return A
+    if s[0] == 'M':
+        return ('M', meet(s[1], t[1]), meet(s[2], t[2]))
+    f1, f2 = s[2], t[2]
+    k = min(len(f1), len(f2))
+    pre = meet(s[1], t[1])
+    for x in list(f1[:len(f1) - k]) + list(f2[:len(f2) - k]):       # fixed in one view, somewhere in the prefix of the other
+        pre = meet(pre, x)
+    return ('S', pre, tuple(meet(a, b) for a, b in zip(f1[len(f1) - k:], f2[len(f2) - k:])))
+
+
+def meet_all(shapes):
+    r = TOP
+    for x in shapes:
+        r = meet(r, x)
+    return r
+
+
+def elem(s, idx=('any',)):
+    """shape of the element of a value of shape s at index kind idx: ('const', i) | ('last', k) | ('any',)"""
+    if not tracked(s):
+        return s                    # A stays A; TOP (nothing known yet, or nothing there) stays TOP: not trusted either
+    if s[0] == 'M':
+        return s[2]
+    pre, suf = s[1], s[2]
+    n = len(suf)
+    if idx[0] == 'last' and idx[1] <= n:
+        return suf[n - idx[1]]
+    if idx[0] == 'const' and pre == TOP and idx[1] < n:
+        return suf[idx[1]]
+    return meet_all([pre] + list(suf))
+
+
+def homog(s):
+    """the same elements without fixed positions (a copy that may be reordered / cut)"""
+    if not tracked(s):
+        return FLAT
+    if s[0] == 'M':
+        return S(meet(s[1], s[2]))
+    return S(meet_all([s[1]] + list(s[2])))
+
+
+def norm(s):
+    """trust skeleton: TOP positions read as A; a container without any trusted position is FLAT"""
+    if s == TOP or not tracked(s):
+        return A
+    if s[0] == 'M':
+        k, v = norm(s[1]), norm(s[2])
+        return ('M', k, v)
+    pre = norm(s[1])
+    suf = tuple(norm(x) for x in s[2])
+    if not tracked(pre) and not any(tracked(x) for x in suf):
+        return FLAT
+    return ('S', pre, suf)
+
+
+def has_trust(s):
+    """some element position of s is trusted"""
+    n = norm(s)
+    return tracked(n) and n != FLAT and not (n[0] == 'M' and not tracked(n[1]) and not tracked(n[2]))
+
+
+def index_kind(base, sl):
+    """('const', i) | ('last', k) | ('any',) for the subscript base[sl]"""
+    if isinstance(sl, ast.Constant) and isinstance(sl.value, int) and not isinstance(sl.value, bool):
+        if sl.value >= 0:
+            return ('const', sl.value)
+        return ('last', -sl.value) if LANG[0] == 'py' else ('any',)
+    if isinstance(sl, ast.UnaryOp) and isinstance(sl.op, ast.USub) and isinstance(sl.operand, ast.Constant) and isinstance(sl.operand.value, int) \
+            and not isinstance(sl.operand.value, bool) and sl.operand.value > 0 and LANG[0] == 'py':
+        return ('last', sl.operand.value)
+    if isinstance(sl, ast.BinOp) and (isinstance(sl.op, ast.Sub) or getattr(sl, 'js_op', None) == '-') and isinstance(sl.right, ast.Constant) \
+            and isinstance(sl.right.value, int) and not isinstance(sl.right.value, bool) and sl.right.value > 0 and expr_text(base) is not None:
+        l = sl.left
+        if isinstance(l, ast.Attribute) and l.attr == 'length' and expr_text(l.value) == expr_text(base):
+            return ('last', sl.right.value)
+        if isinstance(l, ast.Call) and isinstance(l.func, ast.Name) and l.func.id == 'len' and len(l.args) == 1 and expr_text(l.args[0]) == expr_text(base):
+            return ('last', sl.right.value)
+    return ('any',)
+
+
+class IterElem(ast.AST):
+    """synthetic expression: an element produced by iterating `value` (wrappers enumerate / items / entries .. still on it)"""
+    _fields = ('value',)
+
+
+def concat_shape(a, b):
+    if not tracked(a) or a[0] != 'S':
+        a = FLAT
+    if not tracked(b) or b[0] != 'S':
+        b = FLAT
+    if a[1] == TOP and b[1] == TOP:
+        return S(TOP, a[2] + b[2])
+    return S(meet_all([a[1]] + list(a[2]) + [b[1]]), b[2])
+
+
+def cap(s, d=5):
+    """shapes nested deeper than d are not followed (keeps the fixpoint finite: x = [x])"""
+    if not tracked(s):
+        return s
+    if d == 0:
+        return A
+    if s[0] == 'M':
+        return ('M', cap(s[1], d - 1), cap(s[2], d - 1))
+    return ('S', cap(s[1], d - 1), tuple(cap(x, d - 1) for x in s[2]))
+
+
+def is_fresh_expr(v, lv):
+    """v evaluates to a NEW object (display, copy, concatenation ...): no other name can see it yet"""
+    if v is None or isinstance(v, (ast.Constant, ast.List, ast.Tuple, ast.Set, ast.Dict, ast.ListComp, ast.SetComp, ast.GeneratorExp, ast.DictComp,
+                                   ast.BinOp, ast.Compare, ast.UnaryOp, ast.JoinedStr, ast.Lambda)):
+        return True
+    if isinstance(v, ast.Subscript):
+        return isinstance(v.slice, ast.Slice)
+    if isinstance(v, ast.Call):
+        f = v.func
+        if isinstance(f, ast.Name):
+            return f.id in COPY_FUNCS or f.id in EMPTY_CTORS
+        if isinstance(f, ast.Attribute):
+            return f.attr in COPY_METHODS or f.attr in FRESH_METHODS or f.attr == 'concat' or expr_text(f) == 'Array.from'
+    return False
+
+
+def alternatives(v):
+    if isinstance(v, ast.IfExp):
+        return alternatives(v.body) + alternatives(v.orelse)
+    if isinstance(v, ast.BoolOp):
+        return [y for x in v.values for y in alternatives(x)]
+    if isinstance(v, ast.Await):
+        return alternatives(v.value)
+    return [v]
+
+
+def apply_index_stores(b, idx):
+    for k, v, ik in idx:
+        if b == TOP:
+            b = ('M', k, v)
+        elif not tracked(b):
+            pass
+        elif b[0] == 'M':
+            b = ('M', meet(b[1], k), meet(b[2], v))
+        else:
+            pre, suf = b[1], list(b[2])
+            n = len(suf)
+            if ik[0] == 'last' and ik[1] <= n:
+                suf[n - ik[1]] = meet(suf[n - ik[1]], v)
+                b = ('S', pre, tuple(suf))
+            elif ik[0] == 'const' and pre == TOP and ik[1] < n:
+                suf[ik[1]] = meet(suf[ik[1]], v)
+                b = ('S', pre, tuple(suf))
+            else:
+                b = meet(b, S(v))
+    return b
+
+
+def mutator_site(sh, call):
+    """what the mutating method call x.m(args) says about the shape of x: ('base', shape) | ('idx', k, v, kind)"""
+    m, args = call.func.attr, call.args
+    if m in ('set', 'setdefault') and len(args) >= 2:
+        return ('idx', sh.of(args[0]), sh.of(args[1]), ('any',))
+    if m in ('extend', 'update') and len(args) == 1:
+        a = sh.of(args[0])
+        return ('base', a if (tracked(a) and a[0] == 'M') else S(sh.iter_elem(args[0])))
+    if m in ('sort', 'reverse', 'pop', 'remove', 'clear', 'shift', 'delete', 'discard', 'popitem', 'popleft', 'copyWithin'):
+        return ('base', S(TOP))         # nothing is stored, positions may move
+    if m == 'insert' and len(args) == 2:
+        args = args[1:]
+    elif m == 'splice':
+        args = args[2:]
+    return ('base', S(meet_all([elem(sh.of(a.value)) if isinstance(a, ast.Starred) else sh.of(a) for a in args])))
+
+
+def collect_sites(body, lv, sh, base, idx, extra_target=None):
+    """binding sites and store sites of the LV names below body: base[name] += (shape, is_alias, node), idx[name] += (k, v, kind).
+    extra_target(target_expr) -> key or None lets the caller collect sites of other targets (writer attributes) under that key."""
+    def key_of(t):
+        if isinstance(t, ast.Name):
+            return t.id if t.id in lv else None
+        return extra_target(t) if extra_target else None
+
+    def add_base(k, shape, alias, node):
+        if k is not None:
+            base.setdefault(k, []).append((cap(shape), alias, node))
+
+    def bind(t, shape, alias, node):
+        if isinstance(t, (ast.Tuple, ast.List)):
+            starred = False
+            for i, x in enumerate(t.elts):
+                if isinstance(x, ast.Starred):
+                    starred = True
+                    bind(x.value, homog(shape) if tracked(shape) else shape, True, node)
+                else:
+                    bind(x, elem(shape, ('any',) if starred else ('const', i)), True, node)
+            return
+        if isinstance(t, ast.Subscript):
+            k = key_of(t.value)
+            if k is not None:
+                if isinstance(t.slice, ast.Slice):
+                    base.setdefault(k, []).append((cap(S(elem(shape))), False, node))
+                else:
+                    idx.setdefault(k, []).append((sh.of(t.slice), cap(shape), index_kind(t.value, t.slice)))
+            return
+        add_base(key_of(t), shape, alias, node)
+
+    for n in walk_shallow(body):
+        if isinstance(n, ast.Assign):
+            if len(n.targets) == 1 and isinstance(n.targets[0], (ast.Tuple, ast.List)) and isinstance(n.value, (ast.Tuple, ast.List)) \
+                    and len(n.targets[0].elts) == len(n.value.elts) and not any(isinstance(x, ast.Starred) for x in n.targets[0].elts + n.value.elts):
+                for t, v in zip(n.targets[0].elts, n.value.elts):
+                    bind(t, sh.of(v), not is_fresh_expr(v, lv), n)
+            else:
+                for v in alternatives(n.value):         # each alternative is a binding site of its own
+                    for t in n.targets:
+                        bind(t, sh.of(v), not is_fresh_expr(v, lv) or len(n.targets) > 1, n)
+        elif isinstance(n, ast.AnnAssign) and n.value is not None:
+            for v in alternatives(n.value):
+                bind(n.target, sh.of(v), not is_fresh_expr(v, lv), n)
+        elif isinstance(n, ast.AugAssign):
+            t = n.target
+            if isinstance(t, ast.Subscript):
+                k = key_of(t.value)
+                if k is not None and not isinstance(t.slice, ast.Slice):
+                    idx.setdefault(k, []).append((sh.of(t.slice), A, index_kind(t.value, t.slice)))
+            else:
+                add_base(key_of(t), S(sh.iter_elem(n.value)), False, n)
+        elif isinstance(n, (ast.For, ast.AsyncFor, ast.comprehension)):
+            bind(n.target, sh.iter_elem(n.iter), True, n)
+        elif isinstance(n, ast.Call) and isinstance(n.func, ast.Attribute) and n.func.attr in MUTATORS:
+            k = key_of(n.func.value)
+            if k is not None:
+                site = mutator_site(sh, n)
+                if site[0] == 'idx':
+                    idx.setdefault(k, []).append((site[1], cap(site[2]), site[3]))
+                else:
+                    base.setdefault(k, []).append((cap(site[1]), False, n))
+        elif isinstance(n, ast.Delete):
+            for t in n.targets:
+                if isinstance(t, ast.Subscript):
+                    add_base(key_of(t.value), S(TOP), False, n)
+
+
+def compute_shape(body, lv, init, state):
+    """flow-insensitive greatest fixpoint of the shapes of the LV names of one function (init: parameter -> shape).
+    -> (env, lossy): lossy = names that alias an object whose source promises a trusted position that this name's view lost"""
+    env = {n: TOP for n in lv}
+    base = idx = None
+    for _round in range(40):
+        sh = Shaper(lv, env, state)
+        base, idx = {}, {}
+        for n, s0 in init.items():
+            if n in lv:
+                base.setdefault(n, []).append((cap(s0), True, None))
+        collect_sites(body, lv, sh, base, idx)
+        new = {}
+        for n in lv:
+            new[n] = apply_index_stores(meet_all([x[0] for x in base.get(n, [])]), idx.get(n, []))
+            if n not in base and n not in idx:
+                new[n] = A                      # never bound here: a free variable, nothing is known
+        if new == env:
+            break
+        env = new
+    lossy = set()
+    for n in lv:
+        for shape, alias, _node in base.get(n, []):
+            if alias and has_trust(shape) and norm(shape) != norm(env[n]):
+                lossy.add(n)
+    return env, lossy
+
+
+def is_self(e):
+    return isinstance(e, ast.Name) and e.id in ('self', 'this')
+
+
+def state_attr_root(t, state):
+    """t = <state>.X followed by further subscript / attribute / call steps -> X (a store THROUGH an element of the attribute)"""
+    while isinstance(t, (ast.Subscript, ast.Attribute, ast.Call)):
+        if isinstance(t, ast.Attribute) and state(t.value):
+            return t.attr
+        t = t.func if isinstance(t, ast.Call) else t.value
+    return None
+
+
+def is_store_node(node):
+    return isinstance(node, (ast.Call, ast.Delete, ast.AugAssign))
+
+
+def attr_shapes(source):
+    """ATTR_SHAPES: for every attribute name X that a method of a writer class stores to (self.X = v, self.X.append(v),
+    self.X[k] = v, self.X.set(k, v), also through a local alias  name = self.X), the meet of the shapes at ALL those sites, in
+    ALL methods (constructors included) of ALL writer classes; greatest fixpoint (a method may store what it loaded).
+    A store through an element (self.X[k].append(v)) makes X untrusted; a method that mutates a name whose view lost a trusted
+    position makes every attribute untrusted."""
+    classes = [source.klass(c) for c in WRITER_CLASSES]
+    classes = [c for c in classes if c is not None]
+    ATTR_SHAPES.clear()
+    methods = []
+    for cdef, _f in classes:
+        for m in cdef.body:
+            if isinstance(m, (ast.FunctionDef, ast.AsyncFunctionDef)):
+                params, pnames = [], []
+                for a in m.args.args:
+                    pat = getattr(a, 'js_pattern', None)
+                    params.append(a.arg)
+                    pnames.extend(target_names(pat) if pat is not None and not isinstance(pat, ast.Name) else [a.arg])
+                if params and params[0] == 'self':
+                    params, pnames = params[1:], [n for n in pnames if n != 'self']
+                shapes = {}
+                for n in pnames:
+                    shapes[n] = FLAT if n in ROW_NAMES else A
+                if m.name == 'write' and params and params[-1] not in ROW_NAMES:
+                    shapes[params[-1]] = ENTRY
+                init = {params[-1]} if (m.name == 'write' and params) else set()
+                lv = compute_lv(m.body, init | (INTEREST & set(pnames)))
+                methods.append((m, lv, shapes))
+    for _round in range(40):
+        base, idx, deep, poison = {}, {}, set(), False
+        for m, lv, shapes in methods:
+            env, lossy = compute_shape(m.body, lv, shapes, is_self)
+            sh = Shaper(lv, env, is_self)
+            b, ix = {}, {}
+
+            def extra(t):
+                if isinstance(t, ast.Attribute) and is_self(t.value):
+                    return ('attr', t.attr)
+                x = state_attr_root(t, is_self)
+                return ('deep', x) if x is not None else None
+            collect_sites(m.body, lv, sh, b, ix, extra)
+            alias = {}
+            for n in walk_shallow(m.body):
+                if isinstance(n, ast.Assign) and len(n.targets) == 1 and isinstance(n.targets[0], ast.Name) and n.targets[0].id in lv \
+                        and isinstance(n.value, ast.Attribute) and is_self(n.value.value):
+                    alias.setdefault(n.targets[0].id, set()).add(n.value.attr)
+            for k in set(b) | set(ix):
+                if isinstance(k, tuple) and k[0] == 'attr':
+                    base.setdefault(k[1], []).extend(x[0] for x in b.get(k, []))
+                    idx.setdefault(k[1], []).extend(ix.get(k, []))
+                elif isinstance(k, tuple):
+                    deep.add(k[1])
+                else:
+                    stores = [x[0] for x in b.get(k, []) if is_store_node(x[2])]
+                    if (stores or ix.get(k)) and k in lossy:
+                        poison = True
+                    for x in alias.get(k, ()):
+                        base.setdefault(x, []).extend(stores)
+                        idx.setdefault(x, []).extend(ix.get(k, []))
+        new = {}
+        for x in set(base) | set(idx) | deep:
+            new[x] = A if (poison or x in deep) else apply_index_stores(meet_all(base.get(x, [])), idx.get(x, []))
+        if new == ATTR_SHAPES:
+            break
+        ATTR_SHAPES.clear()
+        ATTR_SHAPES.update(new)
+    return ATTR_SHAPES
+
+
+def _builtin_methods():
+    import collections
+    names = set()
+    for ty in (list, dict, set, frozenset, tuple, str, bytes, bytearray, int, float, collections.OrderedDict, collections.defaultdict, collections.deque):
+        names.update(n for n in dir(ty) if not n.startswith('__'))
+    names.update('''at concat copyWithin entries every fill filter find findIndex findLast findLastIndex flat flatMap forEach includes indexOf join keys
+        lastIndexOf map pop push reduce reduceRight reverse shift slice some sort splice toLocaleString toReversed toSorted toSpliced toString unshift
+        values with length size get set has delete clear add charAt charCodeAt codePointAt endsWith localeCompare match matchAll normalize padEnd padStart
+        repeat replace replaceAll search split startsWith substring substr toLowerCase toUpperCase trim trimEnd trimStart valueOf hasOwnProperty
+        isPrototypeOf propertyIsEnumerable toFixed toPrecision toExponential then catch finally next return throw call apply bind'''.split())
+    return names | MUTATORS | COPY_METHODS | FRESH_METHODS | READ_METHODS | ELEM_METHODS | ITER_METHODS
+
+
+BUILTIN_METHODS = _builtin_methods()
+
+
+class Shaper:
+    """shape_of for one function: lv names, their shapes (env), and state(e) -> True when attributes of e are writer state
+    (self / this in a writer method, query_context.writer or a writer local)"""
+
+    def __init__(self, lv, env, state):
+        self.lv, self.env, self.state = lv, env, state
+
+    def iter_elem(self, e):
+        if isinstance(e, ast.Call) and isinstance(e.func, ast.Name) and e.args:
+            f = e.func.id
+            if f == 'enumerate':
+                return S(TOP, (A, self.iter_elem(e.args[0])))
+            if f in ('reversed', 'iter', 'sorted', 'list', 'tuple'):
+                return self.iter_elem(e.args[0])
+            if f == 'iteritems6':
+                s = self.of(e.args[0])
+                return S(TOP, (s[1], s[2])) if tracked(s) and s[0] == 'M' else A
+            if f in ITER_WRAPPERS:
+                return A
+        if isinstance(e, ast.Call) and isinstance(e.func, ast.Attribute) and e.func.attr in ITER_METHODS and not e.args:
+            s = self.of(e.func.value)
+            m = e.func.attr
+            if tracked(s) and s[0] == 'M':
+                return {'keys': s[1], 'values': s[2]}.get(m, S(TOP, (s[1], s[2])))
+            if tracked(s) and m in ('entries', 'items'):
+                return S(TOP, (A, elem(s)))
+            if tracked(s) and m == 'values':
+                return elem(s)
+            return A
+        s = self.of(e)
+        if tracked(s) and s[0] == 'M':
+            return s[1] if LANG[0] == 'py' else S(TOP, (s[1], s[2]))
+        return elem(s)
+
+    def of(self, e):
+        if e is None or isinstance(e, ast.Constant):
+            return A
+        if isinstance(e, IterElem):
+            return self.iter_elem(e.value)
+        if isinstance(e, ast.Name):
+            return self.env.get(e.id, A) if e.id in self.lv else A
+        if isinstance(e, (ast.List, ast.Tuple, ast.Set)):
+            if any(isinstance(x, ast.Starred) for x in e.elts):
+                return S(meet_all([elem(self.of(x.value)) if isinstance(x, ast.Starred) else self.of(x) for x in e.elts]))
+            return S(TOP, [self.of(x) for x in e.elts])
+        if isinstance(e, ast.Dict):
+            if not e.keys:
+                return TOP
+            return ('M', meet_all([self.of(k) for k in e.keys if k is not None] or [A]), meet_all([self.of(v) for v in e.values]))
+        if isinstance(e, (ast.ListComp, ast.SetComp, ast.GeneratorExp)):
+            return FLAT
+        if isinstance(e, ast.Subscript):
+            b = self.of(e.value)
+            if isinstance(e.slice, ast.Slice):
+                sl = e.slice
+                return b if (sl.lower is None and sl.upper is None and sl.step is None and tracked(b)) else homog(b)
+            return elem(b, index_kind(e.value, e.slice))
+        if isinstance(e, ast.Starred):
+            return elem(self.of(e.value))
+        if isinstance(e, ast.BinOp):
+            if isinstance(e.op, ast.Add) and listy(e, self.lv):
+                r = None
+                for x in flatten_add(e):
+                    sx = self.of(x)
+                    r = sx if r is None else concat_shape(r, sx)
+                return r if tracked(r) else FLAT
+            return FLAT if listy(e, self.lv) else A
+        if isinstance(e, ast.IfExp):
+            return meet(self.of(e.body), self.of(e.orelse))
+        if isinstance(e, ast.BoolOp):
+            return meet_all([self.of(x) for x in e.values])
+        if isinstance(e, ast.Await):
+            return self.of(e.value)
+        if isinstance(e, ast.Attribute):
+            if self.state(e.value):
+                return ATTR_SHAPES.get(e.attr, A)
+            return A
+        if isinstance(e, ast.Call):
+            f = e.func
+            if isinstance(f, ast.Name):
+                if f.id in EMPTY_CTORS and (not e.args or f.id == 'defaultdict'):
+                    return TOP
+                if f.id in COPY_FUNCS and len(e.args) == 1:
+                    return S(self.iter_elem(e.args[0]))
+                return A
+            if isinstance(f, ast.Attribute):
+                m = f.attr
+                if m == 'get_record':
+                    return FLAT
+                if m in SRC_METHODS:
+                    return SRC3
+                if expr_text(f) == 'Array.from' and len(e.args) == 1:
+                    return S(self.iter_elem(e.args[0]))
+                if m in COPY_METHODS:
+                    b = self.of(f.value)
+                    return b if (not e.args and tracked(b)) else homog(b)
+                if m == 'concat':
+                    r = self.of(f.value)
+                    for a in e.args:
+                        r = concat_shape(r, self.of(a))
+                    return r if tracked(r) else FLAT
+                if m in FRESH_METHODS:
+                    return FLAT
+                if m in ELEM_METHODS:
+                    return elem(self.of(f.value))
+            return A
+        return A
+
+
 class Scope:
     def __init__(self, prefix, lv, locals_, ctx, cls, fname, label):
         self.prefix = prefix        # qualifies variable names of this function instance
@@ -859,6 +1390,9 @@ class Scope:
         self.returned_in_loop = False
         self.wlocals = set()        # locals that only ever hold a writer object (rule "writer-owned state")
         self.emit_alias = set()     # parameters that stand for self.subwriter / this.subwriter (rule "receiver parameter")
+        self.shape = {}             # LV name -> shape (lower bound, see "shapes")
+        self.lossy = set()          # LV names whose view lost a trusted position of an object they alias: must not be mutated
+        self.opaque = set()         # LV names bound to the result of an inlined call: must not be mutated
         self.owned_alias = set()    # LV names that only ever name an engine-owned list and never read its elements
         self.lazy = {}              # parameter -> LazyArg: a generator expression argument, evaluated by the loops over it
 
@@ -908,6 +1442,7 @@ class Tr:
         self.ninline = 0
         self.gen_label = gen_label
         self.gen_lines = gen_lines
+        self.flags = []             # reasons of the never-safe statements emitted by flag()
 
     # -- diagnostics
     def where(self, node):
@@ -943,15 +1478,46 @@ class Tr:
     def depth(self, e):
         return depth_of(e, self.scope.lv, self.scope.depth)
 
+    def shape(self, e):
+        sc = self.scope
+        return Shaper(sc.lv, sc.shape, self.state_pred(sc)).of(e)
+
+    def flag(self, node, why):
+        """a construct that could invalidate a trusted position: a statement that is never safe (a source object is mutated)"""
+        t = self.prog.tmp('flag')
+        self.emit('assign', t, ('src',))
+        self.emit('setitem', t)
+        self.flags.append('%s: %s' % (self.where(node), why))
+        FLAGS.append('%s: %s: %s' % (self.prog.name, self.where(node), why))
+
+    def check_state_store(self, target, site, node):
+        """a store into the untracked container `target` (writer state, or an element of it): it must not lower a position
+        that some reader trusts (inside the writer classes the site is part of ATTR_SHAPES, so this holds by construction)"""
+        cur = self.shape(target)
+        if not has_trust(cur):
+            return
+        new = apply_index_stores(cur, [site[1:]]) if site[0] == 'idx' else meet(cur, site[1])
+        if norm(new) != norm(cur):
+            self.flag(node, 'a store into writer state puts an untrusted value at a trusted position')
+
     def unknown_rhs(self, e):
-        """rhs for an expression that is not list-valued by form, bound to an LV name"""
+        """rhs for an expression that is not list-valued by form (an untracked expression), bound to an LV name"""
+        root = False
         if self.scope.ctx == 'writer':
             r = root_name(e)
-            if r in ('self', 'this') or (r is not None and r in self.scope.locals):
-                return ('load',)
-        if self.writer_state(e):
+            root = r in ('self', 'this') or (r is not None and r in self.scope.locals)
+        if not root and not self.writer_state(e):
+            return ('src',)
+        # rooted at writer state: the object is owned when it IS a writer attribute (self.attr, W.attr) or sits at a position of
+        # the writer's state that holds a tracked object at every store site; anything else may be a cell that got there
+        # through an untracked name
+        if isinstance(e, ast.Attribute) and self.state_pred(self.scope)(e.value):
             return ('load',)
-        return ('src',)
+        if tracked(self.shape(e)):
+            return ('load',)
+        t = self.prog.tmp('st')
+        self.emit('assign', t, ('load',))
+        return ('cell', t)
 
     def writer_value(self, v, locals_):
         """v evaluates to a writer object of the chain: query_context.writer, or a new instance of a translated writer class"""
@@ -1191,8 +1757,10 @@ class Tr:
                 return ('scalar',)
             if kb[0] == 'unknown':
                 return ('unknown', e)
-            if self.depth(e.value) <= 1:
-                return ('cell', self.materialize(kb, 'row'))      # a cell of a flat record: never owned (rows are copied shallowly)
+            if self.depth(e.value) <= 1 or not tracked(self.shape(e)):
+                # a cell of a flat record (rows are copied shallowly), or a position that is not known to hold a tracked
+                # object at every binding / store site: never owned
+                return ('cell', self.materialize(kb, 'row'))
             return ('elem', self.materialize(kb, 'el'))
         if isinstance(e, ast.Attribute):
             if self.is_lv(e.value):
@@ -1224,6 +1792,9 @@ class Tr:
                 if k[0] in ('scalar', 'unknown') and not last:
                     continue
                 x = self.materialize(k, 'out')
+                sa = self.shape(a)
+                if last and has_trust(sa) and norm(meet(sa, ENTRY)) != norm(ENTRY):
+                    self.flag(c, 'the emitted object has trusted positions but is not an entry (key values.., number, row)')
                 self.emit('emit', x)
             return ('scalar',)
         ftext = expr_text(f)
@@ -1312,14 +1883,22 @@ class Tr:
                     self.read(a)
                 return ('scalar',)
             kr = self.classify(f.value)
+            if kr[0] == 'cell' and m not in BUILTIN_METHODS and m in self.src.method_names():
+                # a method of an engine object (an aggregator's increment ..) called on a CELL: a cell is an atom or a builtin
+                # list (ASSUMED), which has no such method - the call raises or the receiver is no list object of the model
+                for a in c.args + kwvals:
+                    self.escape_arg_unknown(a)
+                return ('unknown', c)
             if kr[0] not in ('scalar', 'unknown'):
                 x = self.materialize(kr, 'rcv')
                 if m in MUTATORS:
+                    if isinstance(f.value, ast.Name) and f.value.id in (sc.lossy | sc.opaque):
+                        self.flag(c, 'mutation through %r, whose view of the object may differ from that of another name' % f.value.id)
                     for a in c.args + kwvals:
                         self.escape(a, False, self.depth(f.value) <= 1)
                     self.emit('setitem', x)
                     if m in ELEM_METHODS:
-                        return ('elem', x) if self.depth(f.value) > 1 else ('cell', x)
+                        return ('elem', x) if (self.depth(f.value) > 1 and tracked(self.shape(c))) else ('cell', x)
                     return ('scalar',)
                 if m in COPY_METHODS:
                     for a in c.args + kwvals:
@@ -1333,7 +1912,7 @@ class Tr:
                     for a in c.args + kwvals:
                         self.read(a)
                     if m in ELEM_METHODS:
-                        return ('elem', x) if self.depth(f.value) > 1 else ('cell', x)
+                        return ('elem', x) if (self.depth(f.value) > 1 and tracked(self.shape(c))) else ('cell', x)
                     return ('scalar',)
                 # unknown method of a list object
                 self.emit('setitem', x)
@@ -1343,6 +1922,7 @@ class Tr:
                 return ('unknown', c)
             # receiver is not a list object of interest
             if m in MUTATORS:
+                self.check_state_store(f.value, mutator_site(Shaper(sc.lv, sc.shape, self.state_pred(sc)), c), c)
                 for a in c.args + kwvals:
                     self.escape(a, False)
                 return ('unknown', c)
@@ -1445,8 +2025,16 @@ class Tr:
                 if ns[0] in lazy:
                     de = self.depth(args[i].elt)        # the loop variable of `for T in <parameter>` has the depth of the element
                     pdepth[ns[0]] = INF if de >= INF else de + 1
+        pshape = {}
+        for i, ns in enumerate(pnames):
+            if i < len(args):
+                sa = S(self.shape(args[i].elt)) if (len(ns) == 1 and ns[0] in lazy) else self.shape(args[i])
+                for n in ns:
+                    pshape[n] = sa if len(ns) == 1 else elem(sa)
         new = self.make_scope(fdef.body, [n for ns in pnames for n in ns], init, prefix, self.scope.ctx,
-                              cls, ffile, '%s (%s:%d)' % (name, ffile, getattr(fdef, 'lineno', 0)), pdepth, emit_alias)
+                              cls, ffile, '%s (%s:%d)' % (name, ffile, getattr(fdef, 'lineno', 0)), pdepth, emit_alias, pshape,
+                              [ns[0] for i, ns in enumerate(pnames) if len(ns) == 1 and i < len(args) and isinstance(args[i], ast.Name)
+                               and args[i].id in (self.scope.lossy | self.scope.opaque)])
         new.lazy = lazy
         if emit_alias & new.lv:
             self.fail(callnode, 'the receiver parameter %s of %s is used as a list' % (sorted(emit_alias & new.lv), name))
@@ -1460,7 +2048,7 @@ class Tr:
                     src = self.materialize(k, 'arg')
                     for n in ns:
                         if n in new.lv:
-                            binds.append((n, ('elem', src)))
+                            binds.append((n, ('elem', src) if tracked(elem(self.shape(args[i]))) else ('cell', src)))
                 continue
             n = ns[0]
             if n in new.lv:
@@ -1493,7 +2081,7 @@ class Tr:
             return ('var', new.ret)
         return ('scalar',)
 
-    def make_scope(self, body, params, init_lv, prefix, ctx, cls, fname, label, param_depth=None, emit_alias=()):
+    def make_scope(self, body, params, init_lv, prefix, ctx, cls, fname, label, param_depth=None, emit_alias=(), param_shape=None, opaque_params=()):
         locals_ = set(params)
         for n in walk_shallow(body):
             if isinstance(n, ast.Assign):
@@ -1515,7 +2103,45 @@ class Tr:
             if p in lv and p not in pd:
                 pd[p] = INF
         sc.depth = compute_depth(body, lv, pd)
+        ps = dict(param_shape or {})
+        for p in params:
+            if p in lv and p not in ps:
+                ps[p] = A
+        sc.shape, sc.lossy = compute_shape(body, lv, ps, self.state_pred(sc))
+        for n in walk_shallow(body):
+            if isinstance(n, ast.Assign) and isinstance(n.value, ast.Call) and self.is_inlined_call(n.value, sc):
+                sc.opaque.update(x for t in n.targets for x in target_names(t) if x in lv)
+        sc.opaque.update(set(opaque_params) & lv)
+        changed = True
+        while changed:                  # whatever is bound (not to a new object) from such a name inherits the doubt
+            changed = False
+            bad = sc.lossy | sc.opaque
+            for n in walk_shallow(body):
+                v, ts = None, []
+                if isinstance(n, ast.Assign):
+                    v, ts = n.value, n.targets
+                elif isinstance(n, ast.AnnAssign) and n.value is not None:
+                    v, ts = n.value, [n.target]
+                elif isinstance(n, (ast.For, ast.AsyncFor, ast.comprehension)):
+                    v, ts = n.iter, [n.target]
+                if v is None or (is_fresh_expr(v, lv) and not isinstance(n, (ast.For, ast.AsyncFor, ast.comprehension))):
+                    continue
+                if any(isinstance(x, ast.Name) and x.id in bad for x in walk_all(v)):
+                    new = {x for t in ts for x in target_names(t) if x in lv} - bad
+                    if new:
+                        sc.opaque.update(new)
+                        changed = True
         return sc
+
+    def state_pred(self, sc):
+        return lambda e: (sc.ctx == 'writer' and is_self(e)) or expr_text(e) == 'query_context.writer' or (isinstance(e, ast.Name) and e.id in sc.wlocals)
+
+    def is_inlined_call(self, c, sc):
+        f = c.func
+        if isinstance(f, ast.Name) and f.id not in sc.lv:
+            return bool(self.src.function(f.id))
+        return isinstance(f, ast.Attribute) and is_self(f.value) and sc.cls is not None and any(
+            isinstance(m, (ast.FunctionDef, ast.AsyncFunctionDef)) and m.name == f.attr for m in sc.cls[0].body)
 
     def writer_locals(self, body, params, locals_):
         """names whose EVERY binding site in this function (nested closures included) is a plain  name = <writer value>"""
@@ -1602,8 +2228,8 @@ class Tr:
             return                      # break / continue at the end of a loop body: the iteration simply ends
         self.fail(s, '%s in a position that is not the end of a loop body' % type(s).__name__.lower())
 
-    def bind_target(self, t, kind, node, depth=INF):
-        """assignment of a classified value (of nesting depth `depth`) to a target"""
+    def bind_target(self, t, kind, node, depth=INF, shape=A):
+        """assignment of a classified value (of nesting depth `depth` and shape `shape`) to a target"""
         sc = self.scope
         if isinstance(t, ast.Name):
             if t.id in NEVER_LV:
@@ -1622,28 +2248,35 @@ class Tr:
                 self.fail(node, 'a source object is bound to the untracked name %r' % t.id)
             return
         if isinstance(t, (ast.Tuple, ast.List)):
-            if kind[0] == 'alts':
-                kind = ('var', self.materialize(kind, 'un'))
-            if depth <= 1 and kind[0] in ('var', 'copy', 'elem', 'concat', 'fresh', 'cell'):
-                sub = ('cell', self.materialize(kind, 'row'))       # the components of a flat record are cells
-            elif depth <= 1:
-                sub = ('scalar',)
-            elif kind[0] in ('var', 'copy', 'elem', 'concat', 'fresh'):
-                src = self.materialize(kind, 'un')
-                sub = ('elem', src)
-            elif kind[0] in ('src', 'unknown'):
-                sub = kind
-            else:
-                sub = ('scalar',)
-            for x in t.elts:
+            if kind[0] == 'alts' or (kind[0] == 'unknown' and depth > 1):
+                kind = ('var', self.materialize(kind, 'un'))        # for an untracked expression: the object itself (unknown_rhs)
+            src = None
+            if kind[0] in ('var', 'copy', 'elem', 'concat', 'fresh', 'cell'):
+                src = self.materialize(kind, 'row' if depth <= 1 else 'un')
+            starred = False
+            for i, x in enumerate(t.elts):
+                cs = elem(shape, ('any',) if starred else ('const', i))
                 if isinstance(x, ast.Starred):
                     x = x.value
+                    starred = True
+                    cs = homog(shape) if tracked(shape) else A
+                if src is not None and kind[0] != 'cell' and depth > 1 and tracked(cs):
+                    sub = ('elem', src)
+                elif src is not None:
+                    sub = ('cell', src)         # a component of a flat record, or a position not known to hold a tracked object
+                elif kind[0] == 'src' and depth > 1:
+                    sub = kind
+                else:
+                    sub = ('scalar',)
                 if sub[0] == 'src' and isinstance(x, ast.Name) and x.id not in sc.lv:
                     continue            # a component of a source tuple bound to an untracked name (bNR, bNF): a scalar
-                self.bind_target(x, sub, node, INF if depth >= INF else depth - 1)
+                self.bind_target(x, sub, node, INF if depth >= INF else depth - 1, cs if sub[0] in ('elem', 'src') else A)
             return
         if isinstance(t, ast.Subscript):
             self.store_into(t.value, node)
+            if self.classify_quiet(t.value) in ('scalar', 'unknown'):
+                self.check_state_store(t.value, ('base', S(elem(shape))) if isinstance(t.slice, ast.Slice)
+                                       else ('idx', self.shape(t.slice), shape, index_kind(t.value, t.slice)), node)
             if isinstance(t.slice, ast.Slice):
                 for x in (t.slice.lower, t.slice.upper, t.slice.step):
                     if x is not None:
@@ -1656,6 +2289,8 @@ class Tr:
             kb = self.classify(t.value)
             if kb[0] not in ('scalar', 'unknown'):
                 self.fail(t, 'attribute store on a list-valued expression')
+            if self.state_pred(sc)(t.value) and has_trust(ATTR_SHAPES.get(t.attr, A)) and norm(meet(ATTR_SHAPES[t.attr], shape)) != norm(ATTR_SHAPES[t.attr]):
+                self.flag(node, 'a writer attribute with trusted positions is assigned a value that does not have them')
             if expr_text(t) == 'query_context.writer':
                 v = getattr(node, 'value', None)
                 if not (isinstance(node, ast.Assign) and (self.writer_value(v, sc.locals) or (isinstance(v, ast.Name) and v.id in sc.wlocals))):
@@ -1664,21 +2299,24 @@ class Tr:
             return
         self.fail(node, 'assignment target form %s' % type(t).__name__)
 
-    def bind_iter(self, target, k, d, node):
-        """target = an element of the iterable of kind k (normalised: var / src / unknown / scalar) and nesting depth d"""
+    def bind_iter(self, target, k, d, node, es=A):
+        """target = an element of the iterable of kind k (normalised: var / src / unknown / scalar), nesting depth d; es = the
+        shape of the element (trusted as an owned object only when it is tracked)"""
         de = INF if d >= INF else max(0, d - 1)
+        if k[0] == 'unknown' and d > 1 and not any(n in self.scope.lv for n in target_names(target)):
+            k = ('scalar',)                                     # no tracked name is bound: nothing to say
+        if k[0] == 'unknown' and d > 1:
+            k = ('var', self.materialize(k, 'cont'))            # the untracked container object itself (unknown_rhs), then its element
         if d <= 1 and k[0] == 'var':
-            self.bind_target(target, ('cell', k[1]), node, 0)    # iterating a flat record: its cells
+            self.bind_target(target, ('cell', k[1]), node, 0, A)    # iterating a flat record: its cells
         elif d <= 1:
-            self.bind_target(target, ('scalar',), node, 0)
+            self.bind_target(target, ('scalar',), node, 0, A)
         elif k[0] == 'var':
-            self.bind_target(target, ('elem', k[1]), node, de)
+            self.bind_target(target, ('elem', k[1]) if tracked(es) else ('cell', k[1]), node, de, es)
         elif k[0] == 'src':
-            self.bind_target(target, ('src',), node, de)
-        elif k[0] == 'unknown':
-            self.bind_target(target, k, node, de)
+            self.bind_target(target, ('src',), node, de, es)
         else:
-            self.bind_target(target, ('scalar',), node, 0)
+            self.bind_target(target, ('scalar',), node, 0, A)
 
     def classify_quiet(self, e):
         """the kind tag of e without emitting anything"""
@@ -1706,6 +2344,8 @@ class Tr:
         kb = self.classify(base)
         if kb[0] in ('scalar', 'unknown'):
             return
+        if isinstance(base, ast.Name) and base.id in (self.scope.lossy | self.scope.opaque):
+            self.flag(node, 'mutation through %r, whose view of the object may differ from that of another name' % base.id)
         if kb[0] == 'src':
             x = self.prog.tmp('m')
             self.emit('assign', x, ('src',))
@@ -1733,23 +2373,25 @@ class Tr:
                     else:
                         tmps.append(('var', self.materialize(k, 'par')))
                 for t, k, v in zip(s.targets[0].elts, tmps, s.value.elts):
-                    self.bind_target(t, k, s, self.depth(v))
+                    self.bind_target(t, k, s, self.depth(v), self.shape(v))
                 return
             kind = self.classify(s.value)
             if len(s.targets) > 1 and kind[0] not in ('scalar', 'unknown', 'var'):
                 kind = ('var', self.materialize(kind, 'multi'))
             for t in s.targets:
-                self.bind_target(t, kind, s, self.depth(s.value))
+                self.bind_target(t, kind, s, self.depth(s.value), self.shape(s.value))
             return
         if isinstance(s, ast.AnnAssign):
             if s.value is not None:
-                self.bind_target(s.target, self.classify(s.value), s, self.depth(s.value))
+                self.bind_target(s.target, self.classify(s.value), s, self.depth(s.value), self.shape(s.value))
             return
         if isinstance(s, ast.AugAssign):
             t = s.target
             if isinstance(t, ast.Name):
                 if t.id in sc.lv:
                     self.read(s.value)
+                    if t.id in (sc.lossy | sc.opaque):
+                        self.flag(s, 'mutation through %r, whose view of the object may differ from that of another name' % t.id)
                     self.emit('setitem', self.v(t.id))
                 else:
                     self.read(s.value)
@@ -1809,16 +2451,17 @@ class Tr:
                     self.scope = la.scope
                     try:
                         g = la.gen.generators[0]
-                        self.bind_iter(g.target, la.kind, la.depth, g)
+                        self.bind_iter(g.target, la.kind, la.depth, g, self.shape(IterElem(value=g.iter)))
                         for c in g.ifs:
                             self.read(c)
                         ek = self.classify(la.gen.elt)
                         de = self.depth(la.gen.elt)
+                        esh = self.shape(la.gen.elt)
                         if ek[0] != 'scalar':
                             ek = ('var', self.materialize(ek, 'gen'))
                     finally:
                         self.scope = sc
-                    self.bind_target(s.target, ek, s, de)
+                    self.bind_target(s.target, ek, s, de, esh)
                     self.block(s.body, 'loop')
                 self.loop(body, s, tail)
                 return
@@ -1828,8 +2471,10 @@ class Tr:
                 k = ('var', self.materialize(k, 'it'))
             d = self.depth(it)
 
+            es = self.shape(IterElem(value=s.iter))
+
             def body():
-                self.bind_iter(s.target, k, d, s)
+                self.bind_iter(s.target, k, d, s, es)
                 self.block(s.body, 'loop')
             self.loop(body, s, tail)
             return
@@ -1952,7 +2597,11 @@ def translate_writer(lang, source, cname):
                 raise TranslateError('%s:%d: %s.write has no record parameter' % (cfile, m.lineno, cname))
             init = {params[-1]}
         pdepth = {p: (1 if p in ROW_NAMES else INF) for p in params}
-        tr.scope = tr.make_scope(m.body, params, init, mname + '.', 'writer', (cdef, cfile), cfile, '%s.%s (%s:%d)' % (cname, mname, cfile, m.lineno), pdepth)
+        pshape = {p: (FLAT if p in ROW_NAMES else A) for p in params}
+        if mname == 'write' and params[-1] not in ROW_NAMES:
+            pshape[params[-1]] = ENTRY          # see ASSUMED: an entry writer heads the chain
+        tr.scope = tr.make_scope(m.body, params, init, mname + '.', 'writer', (cdef, cfile), cfile, '%s.%s (%s:%d)' % (cname, mname, cfile, m.lineno), pdepth,
+                                 (), pshape)
         if mname == 'write':
             # the record parameter is PARAM (variable 0)
             prog.vars[tr.scope.prefix + params[-1]] = 0
@@ -1993,6 +2642,8 @@ def main():
                 source.add_js(os.path.join(REPO, 'rbql-js', 'rbql.js'))
                 source.add_js(os.path.join(REPO, 'rbql-js', 'rbql_csv.js'))
                 items = generated_js()
+            LANG[0] = lang
+            attr_shapes(source)
             wnames = []
             for cname in WRITER_CLASSES:
                 prog, res = translate_writer(lang, source, cname)
@@ -2037,6 +2688,9 @@ def main():
     v.extend(thms)
     import re
     facts['theorems'] = re.findall(r'^Theorem (\w+)', '\n'.join(thms), flags=re.M)
+    facts['flags'] = sorted(set(FLAGS))
+    for x in facts['flags']:
+        print('translate_heap: never-safe statement emitted: %s' % x, file=sys.stderr)
     with open(os.path.join(outdir, 'HeapFacts.v'), 'w') as f:
         f.write('\n'.join(v) + '\n')
     with open(os.path.join(outdir, 'HeapFacts.json'), 'w') as f:
